@@ -94,4 +94,17 @@ instance : Zero CRat := ⟨⟨0, 0⟩⟩
 def conj (a : CRat) : CRat := ⟨a.re, -a.im⟩
 end CRat
 
+/-! ## A map that is *not* in the IR: input-dependent selection
+
+"Only propagate what this input excites": keep the components that carry more than a fraction `θ`
+of this input's total power, drop the others.  It commutes with scalar factors, so it passes every
+test that uses one input at a time or inputs of comparable size, but it is not additive
+(Properties/C06.lean: `keepExcited_homogeneous`, `keepExcited_not_additive`).  No `Term` denotes
+it; the harness therefore probes additivity with terms of very different magnitude. -/
+
+def sumsq (x : List Rat) : Rat := (x.map (fun c => c * c)).sum
+
+def keepExcited (θ : Rat) (x : List Rat) : List Rat :=
+  x.map (fun c => if θ * sumsq x < c * c then c else 0)
+
 end HcipyVerif.OpIR
